@@ -7,13 +7,10 @@ import re
 from harness.core import MachineryError
 
 
-def validate(ctx, module, traces, cfg_text, tag="trace"):
-    """-> (rejected trace indexes (1-based), {index: furthest event reached}, raw output)."""
-    if not traces:
-        return [], {}, ""
-    path = ctx.work / f"{module}_{len(ctx.tlc_runs)}.json"
+def _validate_chunk(ctx, module, traces, cfg_text, tag, k):
+    path = ctx.work / f"{module}_{tag}_{k}_{len(ctx.tlc_runs)}.json"
     path.write_text(json.dumps(traces))
-    r = ctx.tlc(module, cfg_text=cfg_text, workers=1, env={"TRACE_FILE": str(path)}, tag=tag)
+    r = ctx.tlc(module, cfg_text=cfg_text, workers=1, env={"TRACE_FILE": str(path)}, tag=f"{tag}-{k}")
     flat = re.sub(r"\s+", " ", r.out)
     m = re.search(r'<< ?"rejected", \{([^}]*)\} ?>>', flat)
     if not m:
@@ -25,3 +22,26 @@ def validate(ctx, module, traces, cfg_text, tag="trace"):
         for t, l in re.findall(r"<< ?(\d+), (\d+) ?>>", m2.group(1)):
             furthest[int(t)] = int(l)
     return rejected, furthest, flat
+
+
+CHUNK = 800
+
+
+def validate(ctx, module, traces, cfg_text, tag="trace"):
+    """-> (rejected trace indexes (1-based), {index: furthest event reached}, raw output).  Large batches are
+    split into chunks validated by concurrent TLC runs (a single run is single-threaded)."""
+    if not traces:
+        return [], {}, ""
+    if len(traces) <= CHUNK:
+        return _validate_chunk(ctx, module, traces, cfg_text, tag, 0)
+    parts = [traces[i:i + CHUNK] for i in range(0, len(traces), CHUNK)]
+    res = ctx.parallel([(lambda k=k, p=p: _validate_chunk(ctx, module, p, cfg_text, tag, k))
+                        for k, p in enumerate(parts)], width=8)
+    rejected, furthest, flats = [], {}, []
+    for k, (rej, fur, flat) in enumerate(res):
+        off = k * CHUNK
+        rejected += [off + t for t in rej]
+        furthest.update({off + t: l for t, l in fur.items()})
+        # re-number the trace ids inside reason tuples << id, event, "why" >>
+        flats.append(re.sub(r'<< ?(\d+), (\d+), "', lambda m: f'<<{off + int(m.group(1))}, {m.group(2)}, "', flat))
+    return rejected, furthest, " ".join(flats)
